@@ -7,6 +7,9 @@ pair in {absent, normal edge, catch edge}; every insertion order of the successo
 HISTORIES on one Graph object: build a <=3-node graph (normal and catch edges; a reduced 4-node set), query, apply one
 (thorough: two) mutation(s) of the Graph API {add_edge, add_catch_edge, remove_node, entry change} that keep the graph
 rooted, query after each: every answer must be the dominator tree of the graph as it is at that moment.
+Structural sub-spaces of larger graphs (both tiers, complete within their definition): every rooted 5-node graph with
+at most 7 edges; for 5 and 6 nodes every 'DFS spanning tree + at most 3 extra edges' graph (all ordered trees x all
+sets of <= 3 non-tree pairs).
 Each is built as a REAL androguard `Graph` (add_edge / add_catch_edge, real StatementBlock nodes) and
 `Graph.immediate_dominators()` is compared with ref/domtree.py (definition by node removal over edges U catch edges).
 """
@@ -24,6 +27,8 @@ RULE = ("all rooted digraphs on <=4 (thorough 5) labelled nodes by edge-set bit 
 ASSUMPTIONS = ["catch edges count as ordinary edges for dominance (the statement says 'including catch edges'; "
                "Graph.all_sucs is what dom_lt walks)",
                "unreachable nodes are outside the statement (rooted graphs); in DEX CFGs only reachable nodes are judged",
+               "enumerated nodes carry a fixed hash (index based) so that the iteration order of dom_lt's node sets, and "
+               "with it every witness, is reproducible; for the 5/6-node sub-spaces both orders are enumerated",
                "trusted: ref/domtree.py (node-removal definition) and the bit-mask enumerator gen/graphs.py"]
 MANIFEST = {
     "engine": "E2-structures",
@@ -37,12 +42,22 @@ MANIFEST = {
             "bound are covered only through the shipped DEX methods.",
 }
 
+SPARSE5 = 7        # every rooted 5-node graph with at most this many edges (102 262 graphs)
 CH5 = 1 << 17      # masks per shard for 5 nodes (256 shards)
 CH4 = 1 << 11      # masks per shard for 4 nodes (32 shards)
 
 
 def space(ctx):
-    return {"nodes": [1, 2, 3, 4] + ([5] if ctx.thorough else []),
+    return {"sparse_5_nodes": "every rooted digraph on 5 labelled nodes (entry 0, self-loops allowed) with at most %d "
+                              "edges: all subsets of the 25 ordered pairs of size 4..%d, kept iff every node is "
+                              "reachable (102 262 graphs)" % (SPARSE5, SPARSE5),
+            "set_iteration_order": "sparse and tree families run twice: node sets (dom_lt's predecessor sets and buckets) "
+                                   "iterating in ascending and in descending node index (fixed node hashes)",
+            "tree_plus_extra_edges": "for n = 5 and n = 6: every ordered rooted tree on n nodes labelled in DFS preorder "
+                                     "(Catalan(n-1) = 14 / 42 trees) x every set of at most 3 ordered pairs that are not "
+                                     "tree edges (self-loops, back, forward, cross), tree edges inserted first "
+                                     "(21 868 + 209 664 graphs)",
+            "nodes": [1, 2, 3, 4] + ([5] if ctx.thorough else []),
             "edge_sets": "all 2^(n*n) masks, kept iff every node reachable from node 0",
             "edge_kinds_for_<=3_nodes": ["absent", "normal", "catch"],
             "successor_insertion_orders": "all, for n <= %d" % (4 if ctx.thorough else 3),
@@ -57,6 +72,9 @@ def shards(ctx):
     for name in D.dex_files(ctx):
         parts = 8 if name.endswith("classes.dex") else 1
         s += [("dex", name, k, parts) for k in range(parts)]
+    # structurally defined sub-spaces of 5- and 6-node graphs (quick and thorough): complete within their definition
+    s += [("sparse", 5, SPARSE5, k, 32) for k in range(32)]
+    s += [("tree", 5, 3, t) for t in range(14)] + [("tree", 6, 3, t) for t in range(42)]
     # histories on ONE Graph object: query, mutate through the API, query again (the answer must follow the graph)
     depth = 2 if ctx.thorough else 1
     s += [("hist", "bin", 1, 0, 2, 1, depth), ("hist", "bin", 2, 0, 16, 1, depth)]
@@ -107,6 +125,8 @@ def features(n, rows, edges, doms=None):
 
 
 def key_of(n, rows, edges, fam):
+    if fam.startswith("tree+"):
+        return "idom:n%d:%s" % (n, fam)
     shp, selfloop, catch = features(n, rows, edges)
     nk = "n%d" % n if fam != "dex" else "dex"
     return "idom:%s:%s%s%s" % (nk, shp, ":selfloop" if selfloop else "", ":catch" if catch else "")
@@ -121,7 +141,7 @@ def has_join(n, rows):
     return any(x >= 2 for x in indeg)
 
 
-def one_enum(acc, nodes, n, edges, fam, stats=True):
+def one_enum(acc, nodes, n, edges, fam, stats=True, hm="asc"):
     rows = G.rows_of_edges(n, edges)
     g = D.build(nodes[:n], edges)
     msg, want, doms = judge(g, nodes[:n], rows)
@@ -139,8 +159,8 @@ def one_enum(acc, nodes, n, edges, fam, stats=True):
             acc.count("graphs_with_catch_edge")
     if msg:
         acc.violation(key_of(n, rows, edges, fam),
-                      {"fam": "enum", "n": n, "edges": [list(e) for e in edges]},
-                      "graph n=%d edges=%s (entry 0): %s" % (n, edges, msg))
+                      {"fam": "enum", "n": n, "edges": [list(e) for e in edges], "hash": hm},
+                      "graph n=%d edges=%s (entry 0, node sets iterate %sending): %s" % (n, edges, hm, msg))
     return want
 
 
@@ -246,6 +266,21 @@ def run_shard(ctx, shard):
             acc.count("catch_graphs_n%d" % n)
             if n == 3 and i == 9000:
                 acc.sample({"n": 3, "edges": [list(e) for e in edges], "family": "normal+catch edges"})
+    elif kind == "sparse":
+        for hm in ("asc", "desc"):          # both iteration orders of dom_lt's predecessor / bucket sets
+            nodes = D.make_nodes(n, None, hm)
+            for edges in G.sparse_rooted(n, shard[2], shard[3], shard[4]):
+                one_enum(acc, nodes, n, edges, "bin", hm == "asc", hm)
+                acc.count("sparse_graphs_n%d_x_set_order" % n)
+    elif kind == "tree":
+        for hm in ("asc", "desc"):
+            nodes = D.make_nodes(n, None, hm)
+            for edges, k in G.tree_plus(n, shard[2], shard[3]):
+                one_enum(acc, nodes, n, edges, "tree+%d" % k, hm == "asc", hm)
+                acc.count("tree_plus_graphs_n%d_x_set_order" % n)
+        if n == 6 and shard[3] == 17:
+            acc.sample({"family": "DFS tree + 3 extra edges", "n": 6,
+                        "edges": [[0, 1], [1, 2], [2, 3], [1, 4], [4, 5], [0, 4], [1, 5], [5, 3]]})
     elif kind == "ord":
         for mask in G.rooted_masks(n, shard[2], shard[3]):
             first = True
@@ -309,7 +344,7 @@ def replay(ctx, w):
         return "replay: method index %r not found in %s" % (w["index"], w["file"])
     n = w["n"]
     edges = [tuple(e) for e in w["edges"]]
-    nodes = D.make_nodes(n)
+    nodes = D.make_nodes(n, None, w.get("hash", "asc"))
     g = D.build(nodes, edges)
     return judge(g, nodes, G.rows_of_edges(n, edges))[0]
 
